@@ -684,6 +684,29 @@ class Interp:
         if node.keywords:
             raise Unsupported("class keywords / metaclass")
         bases = [self.eval(b, scope) for b in node.bases]
+        import typing as _typing
+        if len(bases) == 1 and bases[0] is _typing.NamedTuple:
+            # a plain record type: built natively from its field names (annotations are not evaluated); instances are
+            # ordinary tuples that may hold symbolic members
+            fields, defaults = [], {}
+            for st in node.body:
+                if isinstance(st, ast.AnnAssign) and isinstance(st.target, ast.Name):
+                    fields.append(st.target.id)
+                    if st.value is not None:
+                        defaults[st.target.id] = self.eval(st.value, scope)
+                elif isinstance(st, ast.Expr) and isinstance(st.value, ast.Constant):
+                    continue
+                elif isinstance(st, ast.Pass):
+                    continue
+                else:
+                    raise Unsupported("NamedTuple class with methods")
+            import collections as _collections
+            cls = _collections.namedtuple(node.name, fields, defaults=[defaults[f] for f in fields if f in defaults] or None,
+                                          module=scope.globals.get("__name__") or "<interpreted>")
+            self.ctx.note("model: typing.NamedTuple class %s built natively as collections.namedtuple" % node.name)
+            self.native_ok.add(cls)
+            self.store_name(node.name, cls, scope)
+            return
         for b in bases:
             if not isinstance(b, (PyClass, type)):
                 raise Unsupported("class base %r" % (b,))
